@@ -55,7 +55,9 @@ MatchFull(x, md, s) == Match(x, md, s) /\ x.ram = Fn0(s.ram)
 
 \* C11, declaratively: the step is complete when the machine is halted, or is at an
 \* instruction boundary after having left the one it started on.
-AsmComplete(x, lf) == x.st # "Running" \/ (lf /\ IsInstructionDone(x))
+\* An undefined opcode never reaches a boundary: the micro-sequencer ends up in a state that an
+\* edge does not change; the step then ends at the first such fix-point ("always returns").
+AsmComplete(x, lf) == x.st # "Running" \/ (lf /\ IsInstructionDone(x)) \/ EdgeF(x) = x
 
 Init == /\ Rec[1].op = "init"
         /\ m = FromLog(Rec[1].s) /\ mode = Rec[1].s.mode
